@@ -92,7 +92,7 @@ def rsp_string(st):
 
 
 def follows(st):
-    return st["deps"] != "none" or st["dd"]
+    return st["deps"] != "none" or st["dd"] or st.get("force_follow", False)
 
 
 def render_manifest(sc):
